@@ -114,7 +114,11 @@ impl BuildOptimiser {
         let loops = (self.steps / inner_steps) as f64;
         let kt_ratio = match (self.kt_ratio, self.kt_finish) {
             (Some(ratio), _) => 1. - ratio,
-            (None, Some(finish)) => f64::powf(finish / self.kt_start, 1. / loops),
+            (None, Some(finish)) if self.kt_start > 0. => {
+                f64::powf(finish / self.kt_start, 1. / loops)
+            }
+            // A temperature of zero can't be scaled towards the finishing temperature, it stays at zero.
+            (None, Some(_)) => 1.,
             (None, None) => 0.1,
         };
         debug!("Setting kt_ratio to: {}", kt_ratio);
